@@ -59,6 +59,14 @@ def gen_mp_spec(rng, thorough=False):
 	# through another product and the other only the default one: a degenerate mix outside the documented use)
 	if msrc is not None and not any(b[1] == msrc for fp in fprods for b in fp['bom']):
 		fprods[0]['bom'].append((sup[0]['label'], msrc, rng.choice([1, 2, 3])))
+	# a bill-of-materials number revised AFTER the products have been attached to the network (2 -> 3): nodes must order with the new number
+	for fp in fprods:
+		fp['bom0'] = list(fp['bom'])
+		if rng.random() < .3:
+			ks = [k for k, b in enumerate(fp['bom']) if b[1] is not None]
+			if ks:
+				k = rng.choice(ks); a, b, num = fp['bom'][k]
+				fp['bom'][k] = (a, b, rng.choice([x for x in (1, 2, 3, 4) if x != num]))
 	T = rng.randint(4, 30 if thorough else 14)
 	dis = None
 	if rng.random() < .4:
@@ -113,11 +121,15 @@ def build_mp(spec):
 	fobjs = []
 	for fp in fac['products']:
 		po = SupplyChainProduct(fp['index'], local_holding_cost=fp['h'], stockout_cost=fp['p'], revenue=fp.get('rev'))
-		for (sl, rp, num) in fp['bom']:
+		for (sl, rp, num) in fp.get('bom0', fp['bom']):
 			rm_index = rp if rp is not None else sup_nodes[sl]._dummy_product.index
 			po.set_bill_of_materials(raw_material=rm_index, num_needed=num)
 		fobjs.append(po)
 	f.add_products(fobjs)
+	for fp, po in zip(fac['products'], fobjs):
+		for old_, new_ in zip(fp.get('bom0', fp['bom']), fp['bom']):
+			if tuple(old_) != tuple(new_):
+				po.set_bill_of_materials(raw_material=new_[1], num_needed=new_[2])          # revised while attached
 	f.demand_source = {fp['index']: DemandSource(type='D', demand_list=list(fp['demand'])) for fp in fac['products']}
 	for fp, po in zip(fac['products'], fobjs):
 		pol = fp['policy']
@@ -152,7 +164,7 @@ def install():
 
 	def nbom(node, p, r):
 		if r in node.raw_materials_by_product(p, return_indices=True, network_BOM=True):
-			return node.NBOM(product=p, predecessor=None, raw_material=r)
+			return true_bom(node, p, r)
 		return 0
 
 	def rm(node):
@@ -189,9 +201,9 @@ def install():
 			pl = self.raw_material_inventory[r]
 			for pi in node.raw_material_suppliers_by_raw_material(raw_material=r, return_indices=True, network_BOM=True):
 				pl += self.on_order_by_predecessor[pi][r] + self.inbound_disrupted_items[pi][r]
-			others = [[node.state_vars_current.pending_finished_goods[o], node.NBOM(product=o, predecessor=None, raw_material=r)]
+			others = [[node.state_vars_current.pending_finished_goods[o], true_bom(node, o, r)]
 					  for o in node.product_indices if o != prod]
-			views.append({'pipeline': pl, 'others': others, 'nb': node.NBOM(product=prod, predecessor=None, raw_material=r)})
+			views.append({'pipeline': pl, 'others': others, 'nb': true_bom(node, prod, r)})
 		res = orig_ip(self, product=product, exclude_earmarked_units=exclude_earmarked_units)
 		_rec['ip'].append({'node': node.index, 'period': node.network.period, 'prod': prod, 'il': self.inventory_level[prod],
 						   'rms': views, 'excl': bool(exclude_earmarked_units), 'result': res})
@@ -207,7 +219,7 @@ def install():
 			per_rm = []
 			for r in node.raw_materials_by_product(prod, return_indices=True):
 				sups = node.raw_material_suppliers_by_raw_material(r, return_indices=True)
-				per_rm.append({'rm': r, 'nb': node.NBOM(product=prod, predecessor=None, raw_material=r),
+				per_rm.append({'rm': r, 'nb': true_bom(node, prod, r),
 							   'orders': [res[s][r] for s in sups]})
 			# the inventory position the policy saw = last recorded IP of this product (if any) minus current demand
 			demand = node._get_state_var_total('inbound_order', node.network.period, product=prod)
@@ -248,6 +260,16 @@ def run_mp(spec):
 
 def close(a, b):
 	return abs(float(a) - float(b)) <= TOL * max(1.0, abs(float(a)), abs(float(b)))
+
+
+def true_bom(n, p, r):
+	"""Units of raw material r per unit of product p at node n, read from the PRODUCT's bill of materials (what the user set last);
+	the network default (1 unit of each product of a predecessor without an explicit relation) where the product has none."""
+	try:
+		b = n.products_by_index[p].BOM(r)
+	except Exception:
+		b = 0
+	return b if b else n.NBOM(product=p, predecessor=None, raw_material=r)
 
 
 def mp_oracles(net, T, rec):
@@ -315,7 +337,7 @@ def mp_oracles(net, T, rec):
 			for r in rms:
 				if fg is not None and t > 0:
 					recd = sum(sv[t].inbound_shipment[pi][r] for pi in sv[t].inbound_shipment if r in sv[t].inbound_shipment[pi])
-					used = sum(fg[p] * n.NBOM(product=p, predecessor=None, raw_material=r) for p in prods
+					used = sum(fg[p] * true_bom(n, p, r) for p in prods
 							   if r in n.raw_materials_by_product(p, return_indices=True, network_BOM=True))
 					if not close(sv[t].raw_material_inventory[r], sv[t - 1].raw_material_inventory[r] + recd - used):
 						bad['C01'].append('node %s raw material %s t=%d: stock %s != prev %s + received %s - consumed %s' % (
@@ -324,7 +346,7 @@ def mp_oracles(net, T, rec):
 					bad['C02'].append('node %s raw material %s t=%d: negative stock %s' % (n.index, r, t, sv[t].raw_material_inventory[r]))
 				# orders per raw material = sum over products of FG order x BOM
 				oq_rm = sum(sv[t].order_quantity[pi][r] for pi in sv[t].order_quantity if r in sv[t].order_quantity[pi])
-				want = sum(sv[t].order_quantity_fg[p] * n.NBOM(product=p, predecessor=None, raw_material=r) for p in prods
+				want = sum(sv[t].order_quantity_fg[p] * true_bom(n, p, r) for p in prods
 						   if r in n.raw_materials_by_product(p, return_indices=True, network_BOM=True))
 				if not close(oq_rm, want):
 					bad['C04'].append('node %s raw material %s t=%d: raw-material orders %s != sum of FG orders x BOM %s' % (n.index, r, t, oq_rm, want))
